@@ -218,6 +218,22 @@ def weave_fn(fs: FnSpec, text: str, sig_brace: int, shim_table):
             if tops and not m[tops[-1][1] - 1] in ';}':
                 pos_end = tops[-1][0]
             edits.append((pos_end, order, block(name, 'end', stext)))
+        elif kind == 'loop' and opts.get('desugar'):
+            # desugar-for (DESIGN 3.3): Verus rejects `continue` inside `for`; the Rust reference's own desugaring
+            #   for P in E { B }   ==   { let mut it = (E).into_iter(); loop { match it.next() { None => break, Some(P) => { B } } } }
+            lp = need_loop(arg)
+            if lp['kw'] != 'for':
+                raise WeaveError('%s loop %d is not a for loop' % (name, arg))
+            hdr = text[lp['kw_pos']:lp['open'] + 1]
+            mm = re.match(r'for\s+(\w+)\s+in\s+(.*?)\s*\{$', hdr, re.S)
+            if not mm:
+                raise WeaveError('lost anchor: %s loop %d header %r cannot be desugared' % (name, arg, hdr))
+            pat, expr = mm.group(1), mm.group(2)
+            itn = opts['desugar']
+            newhdr = '{ let mut %s = (%s).into_iter(); loop' % (itn, expr) + block(name, 'loop%d' % arg, stext) + \
+                '{ match %s.next() { None => break, Some(%s) => {' % (itn, pat)
+            repl.append((lp['kw_pos'], lp['open'] + 1, shim_wrap('desugar-for', hdr, newhdr)))
+            edits.append((lp['close'] + 1, order, inline(' } } }')))
         elif kind == 'loop':
             lp = need_loop(arg)
             if 'iter' in opts:
@@ -389,6 +405,8 @@ def build_unit(spec_path, repo, contracts_dir, shim_table, force_extern=None):
             raise WeaveError('round-trip mismatch in %s' % fs.name)
         roundtrip.append((rel, text))
         spin = '' if (fs.extern or degraded) else '/*@w<*/#[verifier::spinoff_prover]/*@w>*/\n'
+        if fs.opts.get('loop_isolation') == 'false' and not (fs.extern or degraded):
+            spin += '/*@w<*/#[verifier::loop_isolation(false)]/*@w>*/\n'
         fn_texts.append((fs, '//@FN< %s\n%s%s\n//@FN> %s\n' % (fs.name, spin, woven, fs.name)))
         fn_info[fs.name] = dict(src=rel, line=s.lineno(a), impl=hdr, text=text, props=fs.props, extern=fs.extern,
                                 shims=fs.shims, degraded=degraded)
